@@ -176,3 +176,11 @@ def judge(ctx, case):
                 ctx.viol("ciphertext with one flipped bit in the %s still decrypts" % {"pub": "embedded public key", "mac": "MAC", "body": "ciphertext body"}[region], {"bit": bit})
         elif "ok" not in d:
             ctx.note("tampered ciphertext: %s" % [q for q in ("panic", "death", "alloc_guard", "err") if q in d][:1])
+        if region == "pub" and mode != "ephemeral":
+            # same tampered bytes, but the caller passes the genuine sender key explicitly: the embedded key is authenticated by the MAC,
+            # so this must fail as well
+            d2 = ctx.call({"op": "ecies_dec", "bytes": bytes(fl).hex(), "has_pub": True, "key": "%064x" % b, "sender_pub": ec.ser(A, True).hex()})
+            ctx.ev()
+            ctx.hit("flip_pub_with_genuine_sender_key")
+            if d2.get("ok", {}).get("stage") == "done":
+                ctx.viol("ciphertext with one flipped bit in the embedded public key still decrypts when the genuine sender key is supplied", {"bit": bit})
